@@ -86,7 +86,7 @@ BAD_INBOUND_ONLY = [
 
 
 def n_cases(tier):
-    return 24000 if tier == 'quick' else 900000
+    return 24000 if tier == 'quick' else 4000000
 
 
 def run_case(idx, rng, tier, rep):
